@@ -237,6 +237,8 @@ class Engine(object):
             if isinstance(a, (int, Fraction)) and isinstance(b, int):
                 return a % b if isinstance(e.op, ast.Mod) else a ** b
             raise Unsupported("symbolic % or **")
+        if isinstance(e.op, (ast.BitAnd, ast.BitOr)):
+            return self.bool_elementwise('and' if isinstance(e.op, ast.BitAnd) else 'or', a, b, st, pc, e)
         op = _BIN.get(type(e.op))
         if op is None:
             raise Unsupported("binary operator %s" % type(e.op).__name__)
@@ -309,6 +311,12 @@ class Engine(object):
             return self.ev(e.orelse, st, pc)
         a = self.ev(e.body, st, pc.guarded(c))
         b = self.ev(e.orelse, st, pc.guarded(bnot(c)))
+        scalar = lambda v: isinstance(v, (int, bool, Fraction, NF)) or is_z3(v)
+        if not (scalar(a) and scalar(b)):
+            if self.mode == 'B':
+                # objects / arrays cannot be merged: decided by the path condition, or the statement is re-run under c / not c
+                return a if self.demand_bool(c, pc) else b
+            raise Unsupported("conditional expression over non-scalars at line %d" % e.lineno)
         return ite(c, a, b)
 
     def ev_ListComp(self, e, st, pc):
@@ -417,6 +425,13 @@ class Engine(object):
                 raise Unsupported("slice of strided view")
             return ArrV(v.buf, arith('+', v.off, lo), n, step)
         i = self.ev(e.slice, st, pc)
+        if isinstance(i, LazyArr) and self.mode == 'B' and isinstance(i.n, int) and isinstance(v.n, int):
+            # boolean mask (bounded mode): each mask entry is decided by the path condition or forked
+            first = i.fn(0) if i.n > 0 else True
+            if isinstance(first, bool) or (is_z3(first) and first.sort() == B):
+                self.oblige("mask-shape:%s@%d" % (ast.unparse(e)[:40], e.lineno), pc, i.n == v.n)
+                keep = [st.elem(v, k) for k in range(min(i.n, v.n)) if self.demand_bool(i.fn(k), pc)]
+                return st.alloc(keep, len(keep), "masked@%d" % e.lineno)
         if isinstance(i, (ArrV, LazyArr, list)):
             raise Unsupported("fancy indexing at line %d" % e.lineno)
         i = self.need_finite(i, pc, 'index', e)
@@ -782,6 +797,46 @@ class Engine(object):
         pc.assume(forall(0, n, lambda k: implies(toI(k) < r if not isinstance(k, int) else (k < r), below(k)), name='q'))
         pc.assume(forall(0, n, lambda k: implies(toI(k) >= r if not isinstance(k, int) else (k >= r), bnot(below(k))), name='q'))
         return r
+
+    def bi_np_isclose(self, args, kw, st, pc, node):
+        """assumed numpy contract: |a - b| <= atol + rtol * |b|  (defaults rtol=1e-05, atol=1e-08)"""
+        a, b = args[0], args[1]
+        rtol = kw.get('rtol', Fraction(1, 100000))
+        atol = kw.get('atol', Fraction(1, 100000000))
+
+        def close(x, y):
+            x, y = split(x)[0], split(y)[0]
+            return cmp('<=', rabs(arith('-', x, y)), arith('+', atol, arith('*', rtol, rabs(y))))
+        aa, ab = isinstance(a, (ArrV, LazyArr)), isinstance(b, (ArrV, LazyArr))
+        if aa or ab:
+            n_ = a.n if aa else b.n
+            return LazyArr(n_, lambda k: close(st.elem(a, k) if aa else a, st.elem(b, k) if ab else b))
+        return close(a, b)
+
+    def bi_np_any(self, args, kw, st, pc, node):
+        a = args[0]
+        if isinstance(a, (ArrV, LazyArr)):
+            if not isinstance(a.n, int):
+                raise Unsupported("np.any over symbolic length")
+            return bor(*[self.truth(st.elem(a, k), st, pc, node) for k in range(a.n)])
+        return self.truth(a, st, pc, node)
+
+    def bi_np_diff(self, args, kw, st, pc, node):
+        a = args[0]
+        if not isinstance(a, (ArrV, LazyArr)):
+            raise Unsupported("np.diff of %r" % type(a).__name__)
+        return LazyArr(arith('-', a.n, 1), lambda k: arith('-', st.elem(a, arith('+', k, 1)), st.elem(a, k)))
+
+    def bi_np_logical_and(self, args, kw, st, pc, node):
+        return self.bool_elementwise('and', args[0], args[1], st, pc, node)
+
+    def bool_elementwise(self, op, a, b, st, pc, node):
+        aa, ab = isinstance(a, (ArrV, LazyArr)), isinstance(b, (ArrV, LazyArr))
+        f = band if op == 'and' else bor
+        if aa or ab:
+            n_ = a.n if aa else b.n
+            return LazyArr(n_, lambda k: f(self.truth(st.elem(a, k) if aa else a, st, pc, node), self.truth(st.elem(b, k) if ab else b, st, pc, node)))
+        return f(self.truth(a, st, pc, node), self.truth(b, st, pc, node))
 
     def bi_np_all(self, args, kw, st, pc, node):
         a = args[0]
